@@ -70,10 +70,7 @@ class TxFetcher:
                 raise ValueError(f"unexpected response: {response}")
             tx = Tx.parse(BytesIO(raw), network=network)
             # make sure the tx we got matches to the hash we requested
-            if tx.segwit:
-                computed = tx.id()
-            else:
-                computed = hash256(raw)[::-1].hex()
+            computed = tx.id()
             if computed != tx_id:
                 raise RuntimeError(f"server lied: {computed} vs {tx_id}")
             cls.cache[tx_id] = tx
